@@ -83,7 +83,7 @@ func NewBaseComponent(node *parser.MJMLNode, opts *options.RenderOpts) *BaseComp
 			classAttrs = make(map[string]string)
 			cssClassParts := make([]string, 0, len(classNames)) // pre-allocate with capacity
 			for _, className := range classNames {
-				if ca := globals.GetClassAttributes(className); ca != nil {
+				if ca := classAttributesFor(opts, className); ca != nil {
 					for k, v := range ca {
 						if k == "css-class" {
 							cssClassParts = append(cssClassParts, v)
@@ -157,7 +157,7 @@ func (bc *BaseComponent) GetAttribute(name string) *string {
 	// 3. Check global defaults (mj-attributes: the element's own tag, then mj-all); the tag name
 	// comes from the node the component was built from
 	if bc.Node != nil {
-		if globalValue := globals.GetGlobalAttribute(bc.Node.GetTagName(), name); globalValue != "" {
+		if globalValue := bc.getGlobalAttribute(bc.Node.GetTagName(), name); globalValue != "" {
 			normalized := normalizeAttributeValue(name, globalValue)
 			return &normalized
 		}
@@ -185,7 +185,7 @@ func (bc *BaseComponent) GetWrittenAttribute(name string) string {
 		return classValue
 	}
 	if bc.Node != nil {
-		if globalValue := globals.GetGlobalAttribute(bc.Node.GetTagName(), name); globalValue != "" {
+		if globalValue := bc.getGlobalAttribute(bc.Node.GetTagName(), name); globalValue != "" {
 			return normalizeAttributeValue(name, globalValue)
 		}
 	}
@@ -205,7 +205,7 @@ func (bc *BaseComponent) GetAttributeFast(comp Component, name string) string {
 	}
 
 	// 3. Global attributes
-	if globalValue := globals.GetGlobalAttribute(comp.GetTagName(), name); globalValue != "" {
+	if globalValue := bc.getGlobalAttribute(comp.GetTagName(), name); globalValue != "" {
 		return normalizeAttributeValue(name, globalValue)
 	}
 
@@ -287,8 +287,20 @@ func (bc *BaseComponent) GetAttributeWithDefault(comp Component, name string) st
 
 // getGlobalAttribute gets a global attribute value from the global store
 func (bc *BaseComponent) getGlobalAttribute(componentName, attrName string) string {
-	// Access global attributes via globals package
+	// The store of the compilation this component belongs to; components built without one
+	// fall back to the package-level store
+	if bc.RenderOpts != nil && bc.RenderOpts.GlobalAttributes != nil {
+		return bc.RenderOpts.GlobalAttributes.GetGlobalAttribute(componentName, attrName)
+	}
 	return globals.GetGlobalAttribute(componentName, attrName)
+}
+
+// classAttributesFor returns the attributes of an mj-class from the compilation's own store
+func classAttributesFor(opts *options.RenderOpts, className string) map[string]string {
+	if opts != nil && opts.GlobalAttributes != nil {
+		return opts.GlobalAttributes.GetClassAttributes(className)
+	}
+	return globals.GetClassAttributes(className)
 }
 
 // getClassAttribute retrieves an attribute value from mj-class definitions if present
